@@ -82,6 +82,11 @@ fn check_f32(m: u32, r: &mut Report, ranges: &[(f32, f32)]) {
             let side = if v >= b { "at-or-above-end" } else { "below-start" };
             r.violation(format!("uniform-f32-range|{side}|{a}..{b}|m={m:#x}"), format!("Uniform({a}..{b}) with mantissa {m:#x} (state {s:#x}) returned {v}"), obj! {"kind" => "f32", "m" => m, "a" => fbits(a), "b" => fbits(b)});
         } else if m == 0 || m == 0x7FFFFF { r.nontrivial(); }
+        // the iterator entry point draws the same value (boundary mantissas and a thinned interior)
+        if m < 64 || m > 0x7FFFFF - 64 || m % 4099 == 0 {
+            let it = Uniform(a..b).samples(&mut Xorshift64(s)).next();
+            if it != Some(v) { r.violation(format!("uniform-f32-samples|{a}..{b}|m={m:#x}"), format!("Uniform({a}..{b}).samples() yields {it:?} first, sample() returns {v} from the same state {s:#x}"), obj! {"kind" => "f32", "m" => m, "a" => fbits(a), "b" => fbits(b)}); }
+        }
     }
 }
 
@@ -230,6 +235,13 @@ fn check_composite_inner(s: u64, r: &mut Report) {
     let mut h4 = Xorshift64(s);
     let ite: Vec<i32> = (0..3).map(|_| Uniform(0..10).sample(&mut h4)).collect();
     ok &= it == ite;
+    // samples() of every other distribution starts with what sample() returns from the same state
+    ok &= Bernoulli(0.5).samples(&mut Xorshift64(s)).next() == Some(Bernoulli(0.5).sample(&mut Xorshift64(s)));
+    ok &= UnitCircle.samples(&mut Xorshift64(s)).next().map(|v| v.0) == Some(UnitCircle.sample(&mut Xorshift64(s)).0);
+    ok &= VectorsOnUnitDisk.samples(&mut Xorshift64(s)).next().map(|v| v.0) == Some(VectorsOnUnitDisk.sample(&mut Xorshift64(s)).0);
+    ok &= UnitSphere.samples(&mut Xorshift64(s)).next().map(|v| v.0) == Some(UnitSphere.sample(&mut Xorshift64(s)).0);
+    ok &= VectorsInUnitBall.samples(&mut Xorshift64(s)).next().map(|v| v.0) == Some(VectorsInUnitBall.sample(&mut Xorshift64(s)).0);
+    ok &= Uniform([1000.0f32, -5.0]..[1001.0, -4.999]).samples(&mut Xorshift64(s)).next() == Some(Uniform([1000.0f32, -5.0]..[1001.0, -4.999]).sample(&mut Xorshift64(s)));
     if !ok { r.violation(format!("composite|s={s:#x}"), format!("array/vector/point/tuple/iterator draw differs from scalar draws in order from state {s:#x}: array {a:?} vs {e:?}, ints {ia:?} vs {ie:?}, tuple {t:?} vs {te:?}"), obj! {"kind" => "composite", "s" => format!("{s:#x}")}); } else { r.nontrivial(); }
 }
 
